@@ -57,6 +57,15 @@ class Ctx:
 
     def cleanup(self):
         shutil.rmtree(self.scratch, ignore_errors=True)
+        # scratch directories of runs that were killed from outside (never of a run that may still be alive: older than six hours)
+        try:
+            parent = os.path.dirname(self.scratch)
+            for d in os.listdir(parent):
+                q = os.path.join(parent, d)
+                if d.startswith("run-") and os.path.isdir(q) and time.time() - os.path.getmtime(q) > 6 * 3600:
+                    shutil.rmtree(q, ignore_errors=True)
+        except OSError:
+            pass
 
     def sub_rng(self, tag):
         return random.Random("%s/%s/%s" % (self.seed, self.pid, tag))
